@@ -72,10 +72,15 @@ def make_formula_body(formula, default_value, assoc_value=None, indent=''):
     atok = asttokens.ASTText(builder.get_text())
     for node in _multiline_string_nodes(atok, atok.tree):
       # We have a constant or f-string that spans multiple lines. If so, revert its indentation.
-      start, end = atok.get_text_range(node)
+      # Use one patch per removed indent (rather than one patch for the whole literal), so that
+      # positions of names inside a multi-line f-string can still be mapped back precisely.
+      start = atok.get_text_range(node)[0]
       indented_text = atok.get_text(node)
-      unindented_text = indented_text.replace('\n' + indent, '\n')
-      unindent_patches.append(textbuilder.Patch(start, end, indented_text, unindented_text))
+      pos = indented_text.find('\n' + indent)
+      while pos >= 0:
+        indent_start = start + pos + 1
+        unindent_patches.append(textbuilder.Patch(indent_start, indent_start + len(indent), indent, ''))
+        pos = indented_text.find('\n' + indent, pos + 1 + len(indent))
 
     return textbuilder.Replacer(builder, unindent_patches)
   else:
